@@ -5,6 +5,7 @@ containing origin-spanning genes, several candidates and subregions, precursor p
 real Region.write_to_genbank to a scratch file, parsed and loaded again with the real readers.
 """
 import collections
+import copy
 import io
 import os
 import shutil
@@ -48,6 +49,12 @@ def check_record(spec, stats=None):
     if not regions:
         return [], 0
     bio = rec.to_biopython()
+    # the full record as the pipeline hands it over: with the antiSMASH structured comment of main.add_antismash_comments
+    bio.annotations.setdefault("structured_comment", {})["antiSMASH-Data"] = {
+        "Version": "verif", "Run date": "2000-01-01 00:00:00", "NOTE": "This is an extract from the original record!",
+        "Starting at": "1", "Ending at": str(len(bio.seq))}
+    before_annotations = copy.deepcopy(bio.annotations)
+    before_record_annotations = copy.deepcopy(rec.annotations)
     before_desc = K.describe(rec)
     before_locs = [str(f.location) for f in bio.features]
     before_quals = [repr(sorted(f.qualifiers.items())) for f in bio.features]
@@ -109,6 +116,11 @@ def check_record(spec, stats=None):
         fails.append(("biopython-record-locations-changed", ""))
     if [repr(sorted(f.qualifiers.items())) for f in bio.features] != before_quals:
         fails.append(("biopython-record-qualifiers-changed", ""))
+    if bio.annotations != before_annotations:
+        fails.append(("biopython-record-annotations-changed", f"{before_annotations.get('structured_comment')} -> "
+                                                              f"{bio.annotations.get('structured_comment')}"[:400]))
+    if rec.annotations != before_record_annotations:
+        fails.append(("full-record-annotations-changed", f"{rec.annotations.get('structured_comment')}"[:300]))
     return fails, len(regions)
 
 
